@@ -152,7 +152,20 @@ fn gen_pair(rng: &mut Rng, f5: bool) -> Pair {
         let p2 = gen_prefix(rng, k, &s, &cfg);
         return Pair { cfg, p1: Vec::new(), p2, s };
     }
-    let cfg = gen::gen_small_cfg(rng);
+    let mut cfg = gen::gen_small_cfg(rng);
+    if cfg.algo != Algo::Fixed && rng.chance(1, 8) {
+        // A configuration the CLI and the library accept although it is unusual: the hash
+        // window is larger than the maximum chunk size (BuzHash then needs more than one
+        // chunk's worth of bytes before its first hash is valid).
+        cfg.window = rng.urange(4, 80);
+        cfg.max = rng.urange(1, cfg.window - 1);
+        cfg.min = match rng.below(3) {
+            0 => 0,
+            1 => cfg.max,
+            _ => rng.urange(0, cfg.max),
+        };
+        cfg.bits = rng.range(1, 4) as u32;
+    }
     let class = *rng.pick(&gen::SRC_CLASSES);
     let slen = rng.urange(0, 6000);
     let s = gen::gen_source(rng, class, slen);
@@ -202,7 +215,7 @@ pub fn run(tier: Tier, seed: u64) -> i32 {
                     with_sync += 1;
                     if after >= 2 {
                         nontrivial.push(format!("{}:{}", i, pair.cfg.describe()));
-                        fams.insert(format!("{:?}/{}", pair.cfg.algo, if f5 { "f5class" } else { "general" }));
+                        fams.insert(format!("{:?}/{}", pair.cfg.algo, if f5 { "f5class" } else if pair.cfg.window > pair.cfg.max { "window>max" } else { "general" }));
                     }
                 }
                 Ok(None) => {}
@@ -244,7 +257,7 @@ pub fn run(tier: Tier, seed: u64) -> i32 {
             "s_class_head": hex(&p.s[..p.s.len().min(16)]), "chunks_after_sync": format!("{:?}", r)}));
     }
     rep.finish(
-        "pairs of streams P1+S / P2+S (prefix kinds: empty, short, long, zero-ending, ending in S's own head, ending in S's first byte repeated, FixedSize-aligned; every fifth pair from the F5 class: P1 empty and S = window ending non-zero + zero run) chunked by the real chunker; after the first boundary common to both at S-position >= window all later boundaries must be equal; non-trivial = distinct pairs that have such a boundary and >= 2 chunks after it",
+        "pairs of streams P1+S / P2+S (prefix kinds: empty, short, long, zero-ending, ending in S's own head, ending in S's first byte repeated, FixedSize-aligned; one rolling configuration in eight has window > max, which CLI and library accept; every fifth pair from the F5 class: P1 empty and S = window ending non-zero + zero run) chunked by the real chunker; after the first boundary common to both at S-position >= window all later boundaries must be equal; non-trivial = distinct pairs that have such a boundary and >= 2 chunks after it",
         &["metamorphic: no reference chunker involved; every second pair is also delivered under two different read schedules (short reads, Pending)"],
         json!({}),
         false,
